@@ -63,14 +63,22 @@ pub fn run(ctx: &mut Ctx) {
     let n = if ctx.thorough() { 40_000 } else { 5_000 };
     for _ in 0..n {
         idx += 1;
-        let nfields = rng.range(1, 3);
+        let nfields = rng.range(1, 4);
         let mut head = b"GET / HTTP/1.1\r\n".to_vec();
+        // fields the library consumes, in front of / between / behind the Cookie fields: the cookie fields keep their order
+        let consumed: [&[u8]; 4] = [b"content-type: text/plain\r\n", b"expect: 100-continue\r\n", b"transfer-encoding: chunked\r\n", b"Content-Type: a/b\r\n"];
+        let with_consumed = rng.chance(1, 3);
+        // (a repeated Transfer-Encoding is a framing error that pre-empts cookie parsing: at most one)
+        let mut te_used = false;
+        let mut pick_consumed = |rng: &mut Rng| -> &[u8] { loop { let c = *rng.pick(&consumed); if c.starts_with(b"transfer") { if te_used { continue; } te_used = true; } return c; } };
         for _ in 0..nfields {
+            if with_consumed && rng.chance(1, 2) { head.extend_from_slice(pick_consumed(&mut rng)); }
             if rng.chance(1, 3) { head.extend_from_slice(b"x: y\r\n"); }
             head.extend_from_slice(*rng.pick(&[&b"Cookie: "[..], b"cookie:", b"COOKIE: "]));
             head.extend_from_slice(&gen_cookie_value(&mut rng));
             head.extend_from_slice(b"\r\n");
         }
+        if with_consumed && rng.chance(1, 2) { head.extend_from_slice(pick_consumed(&mut rng)); }
         head.extend_from_slice(b"\r\n");
         if ctx.mine(idx) {
             emit(ctx, "c15r", 8192, &[], &head, "eof", &[], 0);
